@@ -276,6 +276,7 @@ def mk_rules():
         reg[name] = (wrapper, pats)
     add("r1", [RU.regex_match(100)], lambda ts, m: A(1))
     add("r2", [RU.regex_match(101)], lambda ts, m: A(2))
+    add("r2b", [RU.regex_match(101)], lambda ts, m: A(1))     # a second reading: the same values become derivable from both sequences
     add("r3", [RU.dimension(A), RU.dimension(A)], lambda ts, a, b: A(a.v * 10 + b.v) if a.v < 10 and b.v < 10 else None)
     add("r4", [RU.dimension(A)], lambda ts, a: A(a.v + 5) if a.v < 5 else None)
     return reg
@@ -335,7 +336,9 @@ class SymScorer(Scorer):
         self.i = 0
 
     def _n(self):
-        v = self.vals[self.i] if self.i < len(self.vals) else 0
+        # the symbolic values are reused cyclically, so later scorings (incl. the final scores that
+        # decide re-emission) vary as well
+        v = self.vals[self.i % len(self.vals)] if self.vals else 0
         self.i += 1
         return SF(v)
 
@@ -385,6 +388,7 @@ def _closure():
                 succ.append(s[:i] + (("A", 1),) + s[i + 1:])
             if s[i] == ("R", 101):
                 succ.append(s[:i] + (("A", 2),) + s[i + 1:])
+                succ.append(s[:i] + (("A", 1),) + s[i + 1:])
             if s[i][0] == "A" and s[i][1] < 5:
                 succ.append(s[:i] + (("A", s[i][1] + 5),) + s[i + 1:])
             if i + 1 < len(s) and s[i][0] == "A" and s[i + 1][0] == "A" and s[i][1] < 10 and s[i + 1][1] < 10:
@@ -418,6 +422,8 @@ def _replay_ok(production, value):
                     nxt.add(s[:i] + (("A", 1),) + s[i + 1:])
                 if nm == "r2" and s[i] == ("R", 101):
                     nxt.add(s[:i] + (("A", 2),) + s[i + 1:])
+                if nm == "r2b" and s[i] == ("R", 101):
+                    nxt.add(s[:i] + (("A", 1),) + s[i + 1:])
                 if nm == "r4" and s[i][0] == "A" and s[i][1] < 5:
                     nxt.add(s[:i] + (("A", s[i][1] + 5),) + s[i + 1:])
                 if nm == "r3" and i + 1 < len(s) and s[i][0] == "A" and s[i + 1][0] == "A" and s[i][1] < 10 and s[i + 1][1] < 10:
@@ -631,3 +637,7 @@ def ob_filter_hist(a0: int, a1: int, a2: int, b0: int, b1: int, b2: int) -> bool
     finally:
         PP.global_rules = old
     return set(pp2.applicable_rules) == set(fresh) and need <= set(pp2.applicable_rules)
+
+
+def dom_filter_hist():
+    return itertools.product((0, 1), repeat=6)
